@@ -235,6 +235,9 @@ class IdxEvaluator:
                 except Exception:
                     return TOP
                 continue
+            if e[0] == "f" and isinstance(v, tuple) and v and v[0] == "struct":
+                v = v[1].get(e[3], TOP)
+                continue
             if e[0] == "up" and isinstance(v, tuple) and v and v[0] == "closure":
                 try:
                     v = v[2][int(e[1])]
@@ -320,6 +323,13 @@ class IdxEvaluator:
         def put(state, val):
             if not d["p"]:
                 state.env[d["l"]] = val
+            else:
+                base = state.env.get(d["l"])
+                flds = [e for e in d["p"] if e[0] != "deref"]
+                if isinstance(base, tuple) and base and base[0] == "struct" and len(flds) == 1 and flds[0][0] == "f":
+                    nd = dict(base[1])
+                    nd[flds[0][3]] = val
+                    state.env[d["l"]] = ("struct", nd)
             return state
 
         if r == "use":
@@ -560,6 +570,15 @@ class IdxEvaluator:
         self.steps = 0
         return self._run(f, args, poly or Poly([ge0(LEN)]), 0, ())
 
+    def evaluate_with_env(self, f, args, poly):
+        """like evaluate, but a `return` outcome also carries the final environment (for &mut self kernels)"""
+        self.steps = 0
+        self.keep_env = True
+        try:
+            return self._run(f, args, poly, 0, ())
+        finally:
+            self.keep_env = False
+
     def _run(self, f, args, poly, depth, trace):
         env = {}
         for i, a in enumerate(args):
@@ -595,7 +614,10 @@ class IdxEvaluator:
                 elif k in ("drop", "falseedge", "falseunwind"):
                     work.append(s0.fork(block=t.get("to", t.get("real"))))
                 elif k == "return":
-                    leaves.append((s0.poly, ("return", s0.env.get(0, TOP)), s0.precise, s0.trace))
+                    if getattr(self, "keep_env", False) and depth == 0:
+                        leaves.append((s0.poly, ("return", s0.env.get(0, TOP), dict(s0.env)), s0.precise, s0.trace))
+                    else:
+                        leaves.append((s0.poly, ("return", s0.env.get(0, TOP)), s0.precise, s0.trace))
                     if not s0.precise and s0.why:
                         self.reasons.add(s0.why)
                 elif k in ("unreachable", "resume"):
@@ -844,3 +866,54 @@ def check_slice_kernel(F, f, arg_start, arg_end, arg_step, max_viol=6):
                                                              "step": w["step"], "len": w["len"]}})
     check_slice_kernel.reasons = sorted(ev.reasons)
     return n, viol, undec
+
+
+# ----------------------------------------------------------------------------------------------------------------
+# 3. range iteration:  next() yields cur while it is before end (in the direction of step) and advances by step
+def check_range_next(F, f):
+    """-> (leaves, violations, undecided) for `<PyRange as Iterator>::next`"""
+    ev = IdxEvaluator(F)
+    viol, undec, n = [], 0, 0
+    cases = [
+        ("step > 0, cur < end", [ge0(ladd(STEP, const(-1))), lt0(lsub(IDX, END))], True),
+        ("step > 0, cur >= end", [ge0(ladd(STEP, const(-1))), ge0(lsub(IDX, END))], False),
+        ("step < 0, cur > end", [lt0(STEP), lt0(lsub(END, IDX))], True),
+        ("step < 0, cur <= end", [lt0(STEP), ge0(lsub(END, IDX))], False),
+    ]
+    for name, cons, yields in cases:
+        poly = Poly(cons)
+        me = ("struct", {"cur": IDX, "end": END, "step": STEP})
+        for (p, outcome, precise, trace) in ev.evaluate_with_env(f, [me], poly):
+            n += 1
+            if not precise or outcome[0] != "return":
+                undec += 1
+                continue
+            val, env = outcome[1], outcome[2]
+            if not (isinstance(val, tuple) and val and val[0] == "opt"):
+                undec += 1
+                continue
+            bad = None
+            if yields:
+                if val[1] != "Some":
+                    bad = "the range stops although cur is still before end"
+                elif not (is_lin(val[2]) and equal_on(p, val[2], IDX)):
+                    bad = "next() yields %s instead of cur" % fmt(val[2])
+                else:
+                    after = env.get(1)
+                    cur2 = after[1].get("cur") if isinstance(after, tuple) and after and after[0] == "struct" else None
+                    if cur2 is None or not is_lin(cur2):
+                        undec += 1
+                        continue
+                    if not equal_on(p, cur2, ladd(IDX, STEP)):
+                        bad = "after yielding, cur becomes %s instead of cur + step" % fmt(cur2)
+            elif val[1] != "None":
+                bad = "next() yields a value although cur has reached end"
+            if bad:
+                w = p.witness()
+                if w is None:
+                    undec += 1
+                    continue
+                viol.append({"case": name, "what": bad, "witness": {"cur": w["idx"], "end": w["end"], "step": w["step"]}})
+    check_range_next.reasons = sorted(ev.reasons)
+    return n, viol, undec
+
